@@ -63,5 +63,7 @@ def hist_streams(prop, focus, quick_n, thorough_n, exhaustive_len=(1, 2)):
         yield from histgen.small_histories(1, reduced=False)
         if tier == 'thorough':
             yield from histgen.small_histories(2, reduced=True)
+        else:
+            yield from histgen.small_histories(2, tiny=True)
     out.append(Stream('small-scope', chk, exhaustive=exh))
     return out
